@@ -444,6 +444,8 @@ def run(tier, seed):
     print(f"[C08] special alphabets + CLI + tensor_method: {len(special)} work units", flush=True)
     results += run_pool("vx.checks.c08", "work_special", special)
     for status, res in results:
+        if status == "skipped":
+            continue
         if status != "ok":
             run.report({"signature": {"kind": status}, "what": f"worker failed: {res}", "case": {}})
             continue
